@@ -53,7 +53,8 @@ CHECKS = {
     "C11": ("model_checking",
             "The control skeleton of the iterative-deepening loop (spec/Search.tla, one action per critical section, "
             "nondeterministic monotone expiry) is model-checked exhaustively for the C11 invariants, 'no commit after "
-            "expiry' and termination. The real engine is run with a counting limit expiring first at poll k for every k "
+            "expiry' and termination, and its safety part is proved with TLAPS for any set of root moves and any number of "
+            "passes (spec/SearchProofs.tla, inductive invariant). The real engine is run with a counting limit expiring first at poll k for every k "
             "up to the cost of three passes on small positions (seeded k on larger ones, with and without repetition "
             "history; positions with a single legal move); the recorded run is validated against layer R by spec/SearchTrace.tla: the "
             "properties are decided on what the search returns and on the commits as the observation of a finished pass; "
